@@ -32,6 +32,8 @@ func checkC06(p *Prog, r *Report) {
 	domainRule(p, r, "C06.R6", "the functions of the run path", nil, 180)
 	solarClamps(p, r, "C06.R7")
 	c06MeasuredWater(p, r)
+	// field capacity below the table is stated against the table the inputs describe: the configured phase reaches the model unchanged (shared with C20.R5)
+	c20PhaseAs(p, r, "C06.R9")
 	r.Note("not decided: NaN/Inf created inside the functions excluded by name (solar geometry, photosynthesis light response, crop development, residue tables), overflow to infinity of finite operands, NaN read from input files, and bounds over multi-day histories")
 }
 
